@@ -1011,6 +1011,12 @@ class Values:
             return frozenset(out) or V(("fresh", name))
         if name == "dict":
             return V(("fresh", "dict"))
+        if name == "next" and e.args:
+            # next(it[, default]): an element of what ``it`` iterates (or the default)
+            out2 = set(self.element_of(self._arg(unit, e, at, 0)))
+            if len(e.args) > 1:
+                out2 |= self._arg(unit, e, at, 1)
+            return frozenset(out2) or V(("unknown", "next()"))
         if name == "enumerate":
             arg = self._arg(unit, e, at, 0)
             return frozenset(("enumerate", a) for a in arg)
